@@ -776,6 +776,140 @@ def pairing_semantics(prog, rep):
     return True
 
 
+def pairing_bounded(prog, rep, max_len=4):
+    """Fallback for (iv) when the inductive rule cannot follow a restructured parser: every sequence of line
+    kinds (plain / First / Last) up to length 4 is fed as a vector of known length with ascending representative
+    code points, and the parser's result is compared with the reference pairing. Justified like C18's order
+    types: the parser may touch a line only through is_range_start / is_range_end, copies of its fields and
+    comparisons of code points (arithmetic on a code point makes this fallback stand down too). It is a bounded
+    argument (lengths 0..4, all 3^n kind sequences), stated as such in the evidence."""
+    import itertools
+
+    from .. import accum as ac
+    from ..models import deref_all, _innermost_ref
+
+    key = "precis_tools::ucd_parsers::UnicodeData::parse"
+    rule = "first-last-pairing"
+    b = prog.body(key)
+    if b is None:
+        return False
+    # side condition: no arithmetic in the parser on anything but loop counters of std (checked on its own MIR)
+    for bl in b.blocks:
+        for st_ in bl["stmts"]:
+            if st_["k"] == "assign" and st_["rv"]["k"] == "binop" and st_["rv"]["op"].replace("WithOverflow", "") in ("Add", "Sub", "Mul", "Div", "Rem", "Shl", "Shr", "BitAnd", "BitOr", "BitXor"):
+                rep.undecided(rule + " (bounded)", key, "the parser computes with values (binop %s): representatives are not justified" % st_["rv"]["op"], b.where())
+                return False
+
+    def element(i, kind):
+        fields = [ac.cp(ip.I(0x100 * (i + 1), "u32"))] + [ip.Opq("raw-field", (i, j)) for j in range(1, 15)] + [ip.Opq("kind", (kind,))]
+        return ip.Adt(RAW_UD, 0, tuple(fields))
+
+    class W(ac.AccWorld):
+        def call(self, m, st, callee, args, term):
+            p = callee["path"]
+            name = callee["name"]
+            if p in ("ucd_parse::parse", "ucd_parse::common::parse"):
+                return ip.ok(ip.Opq("cvec", tuple(st.ext["elems"])))
+            if p == "std::path::Path::to_str":
+                return ip.some(ip.Str(("path",)))
+            if name in ("is_range_start", "is_range_end") and args:
+                v = deref_all(m, st, args[0])
+                if isinstance(v, ip.Adt) and v.ty == RAW_UD:
+                    return ip.boolean(v.fields[-1].data[0] == ("first" if name == "is_range_start" else "last"))
+            v0 = deref_all(m, st, args[0]) if args else None
+            if isinstance(v0, ip.Opq) and v0.kind == "cvec":
+                elems = v0.data
+                if name == "len":
+                    return ip.I(len(elems), "usize")
+                if name == "is_empty":
+                    return ip.boolean(not elems)
+                if name in ("deref", "as_slice", "as_ref", "borrow"):
+                    return args[0]
+                if name in ("iter", "into_iter"):
+                    return ip.Opq("cvec-iter", (elems, 0, 1))
+                if name == "windows" and isinstance(args[1], ip.I):
+                    return ip.Opq("cvec-iter", (elems, 0, args[1].v))
+                if name == "first":
+                    return ip.some(ip.Ref(("val", elems[0]))) if elems else ip.none()
+                if name == "last":
+                    return ip.some(ip.Ref(("val", elems[-1]))) if elems else ip.none()
+                if name == "get" and isinstance(args[1], ip.I):
+                    return ip.some(ip.Ref(("val", elems[args[1].v]))) if args[1].v < len(elems) else ip.none()
+            if isinstance(v0, ip.Opq) and v0.kind == "cvec-iter":
+                if name in ("into_iter", "by_ref", "peekable", "fuse"):
+                    return args[0] if name != "peekable" else None
+                if name == "next" and isinstance(args[0], ip.Ref):
+                    ref, it = _innermost_ref(m, st, args[0])
+                    elems, pos, width = it.data
+                    if pos + width > len(elems):
+                        return ip.none()
+                    m.store(st, ref.loc, ip.Opq("cvec-iter", (elems, pos + 1, width)))
+                    if width == 1:
+                        return ip.some(ip.Ref(("val", elems[pos])))
+                    return ip.some(ip.Ref(("val", ip.Opq("array", tuple(elems[pos : pos + width])))))
+            return ac.AccWorld.call(self, m, st, callee, args, term)
+
+        def index_hook(self, st, base, idx):
+            if isinstance(base, ip.Opq) and base.kind in ("array", "cvec") and isinstance(idx, ip.I) and idx.v < len(base.data):
+                return base.data[idx.v]
+            raise ip.AnalysisError("indexing of %r with %r" % (base, idx))
+
+        def len_hook(self, st, a):
+            v = a
+            if isinstance(v, ip.Ref) and v.loc[0] == "val":
+                v = v.loc[1]
+            if isinstance(v, ip.Opq) and v.kind in ("array", "cvec"):
+                return ip.I(len(v.data), "usize")
+            return ip.Top("usize")
+
+    def reference(kinds):
+        out, open_ = [], None
+        for i, k in enumerate(kinds):
+            c = 0x100 * (i + 1)
+            if open_ is not None:
+                if k != "last":
+                    return "Err", out
+                out.append((open_, c))
+                open_ = None
+            elif k == "last":
+                return "Err", out
+            elif k == "first":
+                open_ = c
+            else:
+                out.append((c, c))
+        return "Ok", out  # (a file ending inside a pair: the open range is dropped, as the original does)
+
+    world = W(prog)
+    m = ip.Machine(prog, world)
+    bad = []
+    n = 0
+    try:
+        for ln in range(max_len + 1):
+            for kinds in itertools.product(("plain", "first", "last"), repeat=ln):
+                if kinds and kinds[-1] == "first":
+                    continue  # a file that ends inside a pair is not well-formed
+                st0 = ip.State()
+                st0.ext["elems"] = [element(i, k) for i, k in enumerate(kinds)]
+                outs = [o for o in m.run(m.start(key, [ip.Ref(("val", ip.Opq("path", ())))], st0), max_paths=200) if o.kind != "closed"]
+                n += 1
+                if len(outs) != 1 or outs[0].kind != "return":
+                    bad.append("lines %s: %d outcomes (%s)" % (list(kinds), len(outs), [o.kind for o in outs][:3]))
+                    continue
+                o = outs[0]
+                v = o.value
+                got_res = "Ok" if isinstance(v, ip.Adt) and v.ty == ip.RESULT and v.variant == 0 else "Err"
+                got = [(e[2].v, e[3].v) for e in o.state.events if e[0] == "emit" and isinstance(e[2], ip.I) and isinstance(e[3], ip.I)]
+                want_res, want = reference(kinds)
+                if got_res != want_res or (want_res == "Ok" and got != want):
+                    bad.append("lines %s: parser gives %s %s, the pairing rule gives %s %s" % (list(kinds), got_res, [("%04X" % a, "%04X" % c) for a, c in got], want_res, [("%04X" % a, "%04X" % c) for a, c in want]))
+    except ip.AnalysisError as e:
+        rep.undecided(rule + " (bounded)", key, e, b.where())
+        return False
+    rep.ob(rule, "bounded fallback: all %d sequences of plain/First/Last lines up to length %d are paired as the reference pairs them" % (n, max_len), not bad, "; ".join(bad[:3]), b.where(), key="%s|bounded" % rule, sample=True)
+    rep.extra["pairing_bounded_sequences"] = n
+    return True
+
+
 def run(tier):
     rep = Report("C15", tier, __doc__)
     prog = Program()
@@ -798,6 +932,8 @@ def run(tier):
         decided.add(BIDIGEN + "::compress_into_ranges")
     if pairing_semantics(prog, rep):
         decided.add("precis_tools::ucd_parsers::UnicodeData::parse")
+    else:
+        pairing_bounded(prog, rep)
     rep.extra["decided_by_induction"] = sorted(decided)
     run_loops(prog, rep, skip=decided)
     if "precis_tools::common::get_codepoints_vector" not in decided:
